@@ -13,6 +13,8 @@ pub fn runs(property: &str, tier: Tier) -> u64 {
         | "C10" | "C39" => (480, 12000),
         "C07" => (320, 6000),
         "C12" | "C13" | "C14" | "C33" => (4000, 200000),
+        "C15" | "C16" | "C17" | "C36" => (4000, 200000),
+        "C37" => (1600, 40000),
         _ => (160, 3000),
     };
     match tier { Tier::Quick => quick, Tier::Thorough => thorough }
@@ -152,6 +154,50 @@ pub fn describe(property: &str) -> Option<serde_json::Value> {
                  RFC 6487/9286 rules as documented in DESIGN.md appendix A",
                 "transport stubs: fake rsync executable, simulated HTTPS",
                 "validation_threads = 1 (schedules are explored separately)",
+            ],
+        }))
+    }
+    if matches!(property, "C15" | "C16" | "C17" | "C36" | "C37") {
+        let what = match property {
+            "C15" => "one updater performing two real update cycles against \
+                      1-2 readers issuing full(), diff(), /json-delta and \
+                      /json (bodies consumed chunk by chunk): every response \
+                      pairs its serial (state, JSON field, ETag) with exactly \
+                      that serial's data; nothing served before the first run",
+            "C16" => "an updater installing new data while 1-2 clients send \
+                      conditional /json requests with the previous version's \
+                      ETag / Last-Modified (same-second and later clock): a \
+                      304 must carry the ETag of the version the validators \
+                      were issued for",
+            "C17" => "a /json-delta/notify long-poll for the current version \
+                      racing a data-changing update cycle: the request must \
+                      complete with the new serial; a lost notification shows \
+                      as all tasks blocked",
+            "C36" => "2-4 tasks registering overlapping and new client \
+                      addresses: list sorted and duplicate-free, per-address \
+                      and global open-connection counts exact, zero after close",
+            _ => "2-3 tasks requesting repositories for CAs in the same and \
+                  different rsync modules / RRDP repositories from one \
+                  collector run: every module/repository fetched at most \
+                  once and its data readable when repository() returns",
+        };
+        return Some(json!({
+            "engine": "D (conc): real code built with shuttle sync primitives, \
+                       one seeded schedule (random or PCT depth 3) per run",
+            "level": "exploration",
+            "shrink": false,
+            "rule": format!(
+                "Each run executes the scenario under one schedule chosen by \
+                 shuttle's seeded RandomScheduler or PctScheduler; lock \
+                 operations, hook points and simulated transport calls are \
+                 the scheduling points. Scenario: {what}. Non-trivial: every \
+                 run (>= 2 tasks); distinct = distinct orders in which tasks \
+                 passed their traced steps (hash of the trace)."
+            ),
+            "assumptions": [
+                "sequentially consistent interleavings only (no weak memory)",
+                "blocking work inside a task (file I/O, fake rsync child) is \
+                 atomic from the scheduler's view",
             ],
         }))
     }
